@@ -10,6 +10,9 @@ def run(ctx):
     ca.filter_first(ctx, "J1939_21")
     ca.filter_first(ctx, "J1939_22")
     ca.subscriber_rule(ctx)
+    from rules import codec
+    ctx.rule("O-PGN", "PDU1/PDU2 classification used by the filter is exact and complementary on 0..255", floor=10)
+    codec.pgn(ctx)
     from rules import transport as T, layout as LY
     ctx.rule("R-DELIVER-ARGS", "single-frame delivery hands listeners the frame's own fields (destination decides who is addressed)", floor=4)
     for fd in (False, True):
